@@ -45,6 +45,22 @@ Definition expected_of_settings (defs : list sdef) (s : settings) (d : sdef) : p
                 (match s_bits s with Some t => segs_lead_of t | None => ([], false) end)
                 bits_order_pty (s_codec s) d.
 
+(** does a source type mention a bit sequence of bit order [lsb] (only then does [expected_item]
+    look at [order_path lsb]; conservative: arguments of skipped parameters count) *)
+Fixpoint mentions_order (lsb : bool) (t : src) : bool :=
+  match t with
+  | SBitVec _ l => Bool.eqb l lsb
+  | SApp _ args => existsb (mentions_order lsb) args
+  | STup ts => existsb (mentions_order lsb) ts
+  | SVec x | SVecDeque x | SArray _ x | SCompactT x | SBox x | SOpt x | SBTreeSet x | SCow x | SRange x =>
+      mentions_order lsb x
+  | SRes a b | SBTreeMap a b => mentions_order lsb a || mentions_order lsb b
+  | SParam _ | SPrimT _ => false
+  end.
+
+Definition def_mentions_order (d : sdef) (lsb : bool) : bool :=
+  existsb (fun f => mentions_order lsb (sf_ty f)) (def_sfields d).
+
 (** the MODEL's output read back as the checker [prop_source_roundtrip] reads the observed one:
     generate, emit the module, parse the tokens with Checkers/Parse.v, look the item up by path *)
 Definition model_item_at (r : registry) (s : settings) (p : list string) : option pitem :=
